@@ -1,4 +1,4 @@
-
+// The dependency crates' module paths, so that `use` lines and in-body paths of /repo resolve unchanged.
 pub mod cosmwasm_std {
     pub use super::flat::{attr, coin, coins, to_binary, Addr, Binary, Coin, Deps, DepsMut, Env, MessageInfo, Response, StdError, StdResult, Uint128, Storage, Order, Timestamp, BankMsg, Empty, QuerierWrapper, OverflowError, BlockInfo, entry_point};
 }
@@ -13,7 +13,7 @@ pub mod rust_decimal {
     pub use super::flat::{Decimal, RoundingStrategy};
     pub mod prelude { pub use crate::shim::flat::{FromPrimitive, FromStr, ToPrimitive, Zero}; }
 }
-pub mod cw_storage_plus { pub use super::flat::{Map, Item}; }
+pub mod cw_storage_plus { pub use super::flat::{CwMap as Map, Item}; }
 pub mod semver { pub use super::flat::{Version, VersionReq, SemverError as Error}; }
 pub mod uuid { pub use super::flat::{Uuid, UuidError as Error}; }
 pub mod serde_json { pub use super::flat::Error; pub use super::flat::json_to_string as to_string; }
